@@ -67,7 +67,7 @@ func init() {
 			"analyzer.cacheSubqueryAliasesInJoins calls, on a branch that depends on SubqueryAlias.CanCacheResults(); (G5) guarded-by for Subquery's caches under cacheMu; (G6) CachedResults serves rows only after " +
 			"IsFinalized() and is filled only at io.EOF of its child (never with a partial result), and its fields are written only by SetCachedResults. A violated clause lets a correlated/volatile subquery, " +
 			"a partial result or a previous statement's plan be served as current data.",
-		NotCovered: "correctness of the correlated/volatile detection itself, session table snapshots of the in-memory backend, HashLookup's lifetime (owned by one plan execution), information_schema caches",
+		NotCovered: "correctness of the correlated/volatile detection itself, session table snapshots of the in-memory backend (the clause that keeps them fresh — every autocommit statement, failed or not, commits and clears its implicit transaction so that the next statement starts a new one and drops the snapshots — is decided under C17: P1 for analysis-time errors, P2 + P2w for TransactionCommittingIter.Close and the fields its decision reads), HashLookup's lifetime (owned by one plan execution), information_schema caches",
 		Technique:  "CFG path exploration with gate facts (true edge of a predicate) + who-constructs/who-writes over go/types + type-level containment",
 		Run: func(c *Ctx) {
 			pl := modPath + "/sql/plan."
